@@ -2,6 +2,7 @@
 mod crash;
 mod dim;
 mod echo;
+mod examples;
 mod eval;
 mod fmt;
 mod html;
@@ -24,6 +25,7 @@ fn main() {
     match args[1].as_str() {
         "crash" => crash::main(),
         "dim" => dim::main(),
+        "examples" => examples::main(),
         "dim-env" => dim::main_env(),
         "dim-run" => dim::main_run(),
         "echo" => echo::main(),
